@@ -7,7 +7,7 @@ import re
 
 PRELUDE = '''
 from dataclasses import dataclass
-from typing import Dict, List, Optional, Sequence, Tuple, TypeVar, Union
+from typing import Dict, List, Optional, Sequence, Tuple, Type, TypeVar, Union
 T = TypeVar("T")
 N = TypeVar("N", bound=float)
 C = TypeVar("C", int, str)
@@ -48,6 +48,15 @@ class K:
 class D:
     a: int
     b: str = "b"
+def f_baddef(x: int = None, y: str = 0) -> int:
+    return 0
+class NW:
+    def __new__(cls: "Type[NW]", v: int) -> "NW":
+        return object.__new__(cls)
+TN = TypeVar("TN", bound="NW2")
+class NW2:
+    def __new__(cls: Type[TN], v: int) -> TN:
+        return object.__new__(cls)
 def ident(x: T) -> T:
     return x
 def first(xs: List[T]) -> T:
@@ -105,6 +114,10 @@ def calls():
         out.append((f"f_default({a})", member(eval(a), "int")))
         out.append((f"ident({a})", True))
         out.append((f"num({a})", member(eval(a), "float")))
+    # an ill-typed default is exempt only when it IS the default (argument omitted), not when an equal literal is passed
+    out += [("f_baddef()", True), ("f_baddef(1)", True), ("f_baddef(None)", False), ("f_baddef(x=None)", False), ("f_baddef(1, 0)", False), ("f_baddef(1, 's')", True)]
+    # constructors through a Python-level __new__ with an annotated cls
+    out += [("NW(1)", True), ("NW('a')", False), ("NW2(1)", True), ("NW2('a')", False), ("NW(v=True)", True), ("NW2(None)", False)]
     for a in ["[1]", "['a']", "[1.5, 2.5]"]:
         out.append((f"first({a})", True))
     for a, b in itertools.product(["1", "'s'", "1.5", "True"], repeat=2):
@@ -142,7 +155,7 @@ def in_revealed(o, txt):
             return True
         if p.startswith("<list containing") and type(o) is list:
             return True
-        if re.fullmatch(r"[\w.]*\bD", p) and type(o).__name__ == "D":
+        if re.fullmatch(r"[\w.]*\b(D|NW|NW2)", p) and type(o).__name__ == p.split(".")[-1]:
             return True
     return False
 
